@@ -638,7 +638,9 @@ impl<T> SurfaceOwned<T> {
         F: FnMut(Position) -> T,
     {
         let mut data = Vec::with_capacity(size.height * size.width);
-        for row in 0..size.height {
+        // rows of zero width hold no cells, do not walk them
+        let height = if size.width == 0 { 0 } else { size.height };
+        for row in 0..height {
             for col in 0..size.width {
                 data.push(f(Position { row, col }));
             }
